@@ -30,9 +30,10 @@ PROPS = {
     },
     'C04': {
         'lean': 'C04',
-        'corr': [_f('comp_xfer', 'exec_corr'), _f('comp_sema', 'blocking_corr')],
-        'oracles': [_x('C04')],
+        'corr': [_f('comp_xfer', 'exec_corr'), _f('comp_sema', 'blocking_corr'), _f('comp_sema', 'cci_conc_corr')],
+        'oracles': [_x('C04'), _f('comp_sema', 'cci_conc_oracle')],
         'modelled': ['futures.BoundedExecutor + ThreadPoolExecutor (stage model)', 'utils.SlidingWindowSemaphore (blocking model)',
+                     'utils.CountCallbackInvoker (hand-off of the final IO task; operations linearised by lock acquisition)',
                      'three-stage composition with nested submission: explorer only'],
     },
     'C05': {
